@@ -55,6 +55,12 @@ v('c09-validate-after-mutation', 'break', ['C09'], W,
    '        section = self._build_section(section_level, section_name)\n\n        # Build the header up-front.'),
   ("            'encoding': encoding or self._cur_encoding,\n        })\n\n        self._write_section_header(section, header)",
    "            'encoding': encoding or self._cur_encoding,\n        })\n        self._validate_section(section)\n\n        self._write_section_header(section, header)"))
+v('c09-falsy-line-endings-accepted', 'break', ['C09'], W, ('        if (line_endings is not None and\n            line_endings not in LineEndings.VALID_VALUES):', '        if (line_endings and\n            line_endings not in LineEndings.VALID_VALUES):'))
+v('c09-mimetype-unchecked', 'break', ['C09'], W, ('        if (mimetype is not None and\n            mimetype not in PreambleMimeType.VALID_VALUES):', '        if (mimetype is not None and False and\n            mimetype not in PreambleMimeType.VALID_VALUES):'))
+v('c09-benign-choice-helper', 'benign', ['C09', 'C02', 'C05'], W,
+  ('        if (line_endings is not None and\n            line_endings not in LineEndings.VALID_VALUES):\n            raise DiffXOptionValueChoiceError(\n                option=\'line_endings\',\n                value=line_endings,\n                choices=LineEndings.VALID_VALUES)\n',
+   '        self._check_choice(\'line_endings\', line_endings, LineEndings.VALID_VALUES)\n'),
+  ('    def _build_section(self, level, section_name):', '    def _check_choice(self, option, value, choices):\n        if value is None:\n            return\n        if value not in choices:\n            raise DiffXOptionValueChoiceError(option=option, value=value, choices=choices)\n\n    def _build_section(self, level, section_name):'))
 v('c09-seek-before-write', 'break', ['C09'], W, ('        self.fp.write(header)\n', '        self.fp.seek(0, 2)\n        self.fp.write(header)\n'))
 v('c09-header-after-write', 'break', ['C09'], W,
   ('        header = self._build_section_header(section, **header_options)\n\n        self._write_section_header(section, header)\n        self.fp.write(content)',
